@@ -56,6 +56,28 @@ Proof. intros D b a Hb Hd. exact (proj1 (D b a Hb Hd)). Qed.
 Theorem wfixpoint_of_wf {A} (w : wcodec A) : wsound w -> wdec_wf w -> wfixpoint w.
 Proof. intros S D b a Hb Hd. exact (S a (D b a Hb Hd)). Qed.
 
+Theorem wrefix_of {A} (w : wcodec A) : wsound w -> wdec_ok w -> wrefix w.
+Proof.
+  intros S D b a e Hb Hd He. destruct (D b a Hb Hd) as [W [e' [E' L]]].
+  rewrite He in E'. inversion E'; subst e'. split; [exact L|].
+  destruct (S a W) as [e2 [E2 D2]]. rewrite He in E2. inversion E2; subst e2.
+  exists a. split; [exact D2|exact He].
+Qed.
+
+(* a decoder-side value that the encoder-side check [pe] refuses breaks the unconditional fixed
+   point but not the conditional one *)
+Theorem wrefix_guard {A} pe pd (w : wcodec A) : wsound w -> wdec_ok w -> wrefix (w_guard pe pd w).
+Proof.
+  intros S D b a e Hb Hd He. unfold w_guard in *; cbn [wwf wenc wdec] in *.
+  destruct (wdec w b) as [a0|] eqn:E0; [|discriminate].
+  destruct (pd a0) eqn:Pd; [|discriminate]. inversion Hd; subst a0; clear Hd.
+  destruct (pe a) eqn:Pe; [|discriminate].
+  destruct (wrefix_of w S D b a e Hb E0 He) as [L [a' [D' E']]]. split; [exact L|].
+  destruct (D b a Hb E0) as [W _]. destruct (S a W) as [e2 [E2 D2]].
+  rewrite He in E2. inversion E2; subst e2.
+  exists a. rewrite D2, Pd, Pe. split; [reflexivity|exact He].
+Qed.
+
 (* the byte-level reading: the re-encoding is reproduced by decode-then-encode *)
 Corollary wfixpoint_bytes {A} (w : wcodec A) : wfixpoint w ->
   forall b a, bytes_ok b = true -> wdec w b = Some a ->
